@@ -2,12 +2,32 @@
 from .contcommon import standard_run
 
 
+def through_container(rep, wd, quick, seed, rng):
+    """The data-level histories of C01 (random, few-paths) executed through MetadorContainer on all three
+    drivers and validated against the same reference machine H5Tree: whatever driver carries the container,
+    every operation succeeds or fails and transforms the user-visible tree as on the single plain tree."""
+    from . import ih5common as X
+    from .c01 import jobs_random
+    drivers = ("mc-h5", "mc-ih5", "mc-ih5mf")
+    jobs = jobs_random(12 if quick else 150, 18 if quick else 28, seed + 5, drivers=drivers, start=500000,
+                       values=["v1", "v2", "v3", "v4"], weights={"copyx": 0, "require_dataset": 0})
+    X.run_and_validate(rep, wd, jobs, "data_histories_through_container")
+    jobs = jobs_random(14 if quick else 150, 24 if quick else 32, seed + 6, drivers=drivers, start=600000, depth=1, pb=0.15,
+                       pr=0.04, values=["v1", "v2", "v3"],
+                       weights={"set_dataset": 5, "delete": 4, "move": 4, "copy": 2, "create_group": 1.5, "set_attr": 1.5,
+                                "del_attr": 0.5, "require_group": 0})
+    X.run_and_validate(rep, wd, jobs, "few_paths_many_rewrites_through_container")
+
+
 def run(tier: str) -> int:
     return standard_run(
         "C09", tier,
         rule=("the same generated container operation sequence executed in lock step on h5py.File, IH5Record and IH5MFRecord, "
               "with patch boundaries and reopen points placed independently at random for the IH5 drivers; TLC validates each "
               "driver against the same deterministic reference (H5Tree + Container) and the three-way clause drivers_agree "
-              "(outcome, user tree, attributes, metadata objects, query results)"),
+              "(outcome, user tree, attributes, metadata objects, query results); in addition data-level histories (random and "
+              "few-paths-rewritten-often) run through MetadorContainer on each driver and are validated by Trace_IH5 against "
+              "the reference machine H5Tree"),
         assumptions=["IH5 subset only: printable-ASCII keys, no links; non-UTF-8 byte-string attribute values excluded "
-                     "(recorded finding for C01)"])
+                     "(recorded finding for C01)"],
+        extra=through_container)
